@@ -331,16 +331,19 @@ CHECKS["C09"] = dict(
                 "ListObjectVersions/WalkVersions) on the file-system model: programs of put / multipart-put / delete-marker / delete-by-id on one key of a "
                 "versioning-enabled bucket, from an absent key or an object that predates versioning (null version), with symbolic bodies, against a "
                 "reference history: distinct new ids, every version byte-exact by id, newest version (or missing) by key, listing = history, newest first, one latest; "
-                "following the version listing's markers page by page (page size 1 or 2) terminates and reports every entry exactly once.",
+                "following the version listing's markers page by page (page size 1 or 2) terminates and reports every entry exactly once. "
+                "H09-suspend: the same oracle over programs that suspend versioning for one operation (the write or delete replaces the null version or marker, versions with ids stay) and enable it again.",
     harnesses=[
         dict(name="H09-program", entry="backend/posix.VfVersions", reach=["program-done", "paged"], **_FS),
+        dict(name="H09-suspend", entry="backend/posix.VfVersionsSuspend", reach=["program-done", "paged"], **_FS),
     ],
     assumptions=["file-system model; ULIDs are fresh increasing ids"],
-    outside=["programs longer than 2 (quick) / 3 (thorough) operations", "suspend/enable alternation", "version listings over several keys, with delimiter or prefix, page sizes above 2", "delete of a non-newest version by id"],
+    outside=["programs longer than 2 (quick) / 3 (thorough) operations", "status switches other than enabled -> suspended -> enabled with one operation while suspended (H09-suspend: 3-4 operations of put / delete / delete newest by id)", "version listings over several keys, with delimiter or prefix, page sizes above 2", "delete of a non-newest version by id"],
 )
 
 CHECKS["C11"] = dict(
-    explanation="posix PutObject (new key / overwrite), DeleteObject, CompleteMultipartUpload, CopyObject (new / existing destination) and, in a bucket with versioning "
+    explanation="posix PutObject (new key / overwrite), DeleteObject, CompleteMultipartUpload, CopyObject (new / existing destination), UploadPart (a second part of an upload; afterwards the upload listing, "
+                "the part listing and the object listing show no left-over and the upload stays usable) and, in a bucket with versioning "
                 "enabled, overwriting PutObject and DeleteObject (previous version must stay retrievable by id) on the file-system model, killed before an arbitrary file-system step (every step "
                 "of the operation is a crash point; no deferred clean-up runs), both temp-file strategies; a fresh Posix value then reads the key: it must "
                 "be in its complete previous or complete new state (bytes, length, ETag consistent), an acknowledged upload persists, left-over "
@@ -349,9 +352,10 @@ CHECKS["C11"] = dict(
         dict(name="H11-crash", entry="backend/posix.VfCrash", reach=["crashed", "completed-without-crash"], key_trace=['"crash before'], **_FS),
         dict(name="H11-crash-copy", entry="backend/posix.VfCrashCopy", reach=["crashed", "completed-without-crash"], key_trace=['"crash before'], **_FS),
         dict(name="H11-crash-versioned", entry="backend/posix.VfCrashVersioned", reach=["crashed", "completed-without-crash"], key_trace=['"crash before'], **_FS),
+        dict(name="H11-crash-uploadpart", entry="backend/posix.VfCrashUploadPart", reach=["crashed", "completed-without-crash"], key_trace=['"crash before'], **_FS),
     ],
     assumptions=["file-system model: every completed step is durable (no fsync modelling), no torn writes", "xattr metadata store"],
-    outside=["UploadPart crash points (a part is not an object; its loss before acknowledgement is allowed)", "versioned buckets: multipart completion, delete by version id, suspended versioning",
+    outside=["UploadPart crash points other than for part 2 of an upload with one acknowledged part", "versioned buckets: multipart completion, delete by version id, suspended versioning",
              "bodies longer than one byte (multi-write data paths)", "sidecar metadata store", "power loss (unsynced data): every completed step is taken as durable"],
 )
 
